@@ -330,6 +330,13 @@ class TGen:
             shared = ('e', 'ul', {}, [('e', 'li', {}, [('e', 'span', {'class': 'icon'}, []), ('t', 'x')])])
             for lg in r.sample(['en', 'de', '', 'fr-CH', None], r.randint(2, 3)):
                 body.append(('e', 'div', {} if lg is None else {'lang': lg}, [('e', 'div', {}, [shared])]))
+        if r.random() < 0.45:
+            # an isolate without a dir attribute (direction from its own text) below an ancestor of the other direction, with element children
+            odir = self.pick(['rtl', 'ltr'])
+            txt = self.pick(['abc ', 'אבג ', 'abc ', '123 ', ''])
+            body.insert(r.randrange(len(body) + 1), ('e', 'div', {'dir': odir}, [
+                ('e', 'bdi', {}, [('t', txt), ('e', 'span', {}, [('t', 'x')]), ('e', 'b', {}, [('e', 'i', {}, [('t', 'y')])])]),
+                ('e', 'span', {}, [('t', 'after')])]))
         if r.random() < 0.35:
             # an embedded document (only case-preserving builders keep it): its elements must not see the outer
             # document's language, <meta> pragma or direction
